@@ -96,11 +96,15 @@ type customNode struct {
 
 // Codec returns the marshal/unmarshal pair of a configuration (nil,nil for default JSON).
 func (c Config) Codec() (func(interface{}) ([]byte, error), func([]byte, interface{}) error) {
-	if c.Marshaler != "custom" {
+	if c.Marshaler != "custom" && c.Marshaler != "customz" {
 		return nil, nil
 	}
 	keyT := reflect.TypeOf(c.ZeroKey())
 	valT := reflect.TypeOf(c.ZeroVal())
+	// "customz": like custom, but value number 0 has the empty byte string as its encoding
+	// (as e.g. a default protobuf message has); Unmarshal of an empty input gives that value back
+	emptyEnc := c.Marshaler == "customz"
+	zeroVal := c.MakeVal(0)
 	var marshal func(interface{}) ([]byte, error)
 	var unmarshal func([]byte, interface{}) error
 	marshal = func(x interface{}) ([]byte, error) {
@@ -123,6 +127,9 @@ func (c Config) Codec() (func(interface{}) ([]byte, error), func([]byte, interfa
 				cn.L = append(cn.L, s)
 			}
 			return json.Marshal(cn)
+		}
+		if emptyEnc && reflect.TypeOf(x) == valT && reflect.DeepEqual(x, zeroVal) {
+			return []byte{}, nil
 		}
 		b, err := json.Marshal(x)
 		if err != nil {
@@ -161,6 +168,10 @@ func (c Config) Codec() (func(interface{}) ([]byte, error), func([]byte, interfa
 					}
 				}
 			}
+			return nil
+		}
+		if emptyEnc && len(b) == 0 && reflect.TypeOf(p) == reflect.PointerTo(valT) {
+			reflect.ValueOf(p).Elem().Set(reflect.ValueOf(zeroVal))
 			return nil
 		}
 		if len(b) == 0 || b[0] != '#' {
@@ -262,7 +273,7 @@ func EncodeCustomV1(n *ref.Node) []byte {
 
 // DecodeNode decodes stored node bytes of this configuration into a ref.Node.
 func (c Config) DecodeNode(b []byte) (*ref.Node, error) {
-	if c.Format == ref.FormatV1 && c.Marshaler == "custom" {
+	if c.Format == ref.FormatV1 && c.Marshaler != "json" {
 		return RefNodeFromCustomV1(b)
 	}
 	return ref.Decode(c.Format, b)
@@ -270,7 +281,7 @@ func (c Config) DecodeNode(b []byte) (*ref.Node, error) {
 
 // EncodeNode is the reference encoder for this configuration.
 func (c Config) EncodeNode(n *ref.Node) []byte {
-	if c.Format == ref.FormatV1 && c.Marshaler == "custom" {
+	if c.Format == ref.FormatV1 && c.Marshaler != "json" {
 		return EncodeCustomV1(n)
 	}
 	return ref.Encode(c.Format, n)
